@@ -209,6 +209,12 @@ asn_encode_to_new_buffer(const asn_codec_ctx_t *opt_codec_ctx,
                || (size_t)res.result.encoded == buf_key.computed_size);
     }
 
+    if(res.result.encoded < 0) {
+        /* On failure (.buffer) is NULL, as documented. */
+        FREEMEM(buf_key.buffer);
+        buf_key.buffer = 0;
+    }
+
     res.buffer = buf_key.buffer;
 
     /* 0-terminate just in case. */
